@@ -790,7 +790,8 @@ def _r2_fresh(ctx: Ctx, v: View) -> Optional[Tuple[pf.Node, str, pf.Node]]:
                         af.blocked(ctx, 'R2', 'R2')
                         return None
     ev = af.TestEval(exp_src, pf.nsrc(cl[0]), [])
-    rows = ev.rows(Xe)
+    # the question is about an entry that EXISTS and has expired: membership atoms of the key (`k in M and M[k] <= now`) are true for it
+    rows = ev.rows(_assume_present(Xe, k))
     # the edges an EXPIRED entry (expiry < now) can take: on each of them the entry must be removed before the hit can be reached
     stale_labs = [lab2 for lab2 in ('T', 'F') if any(r[0] == '<' and r[2] == (lab2 == 'T') for r in rows)]
     ctx.need(stale_labs, f'{consx}: `{pf.nsrc(Xe)}` is never evaluated for an expired entry (not analysed)')
@@ -828,6 +829,17 @@ def _r2_fresh(ctx: Ctx, v: View) -> Optional[Tuple[pf.Node, str, pf.Node]]:
     g = [(t, l2) for mp in MAPS for t, l2 in tt.edges(mp, True) if af.every_path_uses_edge(cfg, H, t, l2)]
     ctx.need(bool(g), f'{cons}: `{H.text()}` is not guarded by `{k} in self._cache`')
     return X, lab, H
+
+
+def _assume_present(e: ast.AST, k: str) -> ast.AST:
+    import copy as _copy
+
+    class _T(ast.NodeTransformer):
+        def visit_Compare(self, node: ast.Compare):
+            if any(pf.nsrc(node) == f'{k} in {mp}' for mp in MAPS):
+                return ast.copy_location(ast.Constant(value=True), node)
+            return node
+    return ast.fix_missing_locations(_T().visit(_copy.deepcopy(e)))
 
 
 def _is_load_await(fn: pf.FuncDef, e: ast.AST, alias: Set[str] = frozenset()) -> bool:  # type: ignore[assignment]
